@@ -347,12 +347,6 @@ class NPProxy:
             return real_np.asarray(a, dtype=object)
         return real_np.asarray(a, *args, **kw)
 
-    def float64(self, a):
-        return a if isinstance(a, SN) else real_np.float64(a)
-    float32 = float64
-
-    def int64(self, a):
-        return core.sym_int(a) if isinstance(a, SN) else real_np.int64(a)
 
 
 def _isnanf(v):
